@@ -150,6 +150,44 @@ class StoreRun:
         self.events.append(ev)
         return not raised
 
+    def flush_with_concurrent_add(self, block, wait=0.2):
+        """The real node has two writers on one BlockStore (the network thread's handle_block_received and the miner's found-block
+        handler, each save_block + flush_blocks).  Here a second thread hands over `block` while this thread's flush is inside its disk
+        write (schedule forced from a wrapper around write_blocks_to_disk; the second thread gets `wait` seconds to get through, which
+        it cannot while the buffer's lock is held).  Recorded linearization: flush, then the hand-over, then a second flush -- after
+        which the block must be in the store whichever way the race went."""
+        import threading
+        store = self.store
+        orig = store.write_blocks_to_disk
+        done = threading.Event()
+        started = []
+
+        def adder():
+            store.add_block_to_buffer(block)
+            done.set()
+        th = threading.Thread(target=adder, daemon=True)
+
+        def wrapped(blocks):
+            if not started:
+                started.append(1)
+                th.start()
+                done.wait(wait)
+            return orig(blocks)
+        store.write_blocks_to_disk = wrapped
+        try:
+            ok = self.flush()
+        finally:
+            del store.write_blocks_to_disk          # back to the class's method
+        if not started:
+            th.start()
+        th.join(5)
+        if th.is_alive():
+            raise RuntimeError("the second writer never got the buffer's lock")
+        self.buffered.append(block)
+        self.mem = self.mem.add_block_no_validation(block)
+        self.events.append({"op": "buffer", "blk": abstract_block(self.w, block)})
+        return ok and self.flush()
+
     def trace(self, tid):
         return {"id": tid, "genesis": abstract_block(self.w, self.genesis), "events": self.events}
 
